@@ -111,6 +111,7 @@ type Exec struct {
 	hashes    map[string][]hashFact
 	beMemo    map[string]Term
 	divMemo   map[string][2]Term
+	nnVars    map[int]bool // solver constants known to be >= 0 on the current path
 	constMemo map[string]Term
 	addrHex   map[string][]Term
 	constAtoms map[string]int64
@@ -227,6 +228,7 @@ func (ex *Exec) runOnce(fn *ssa.Function) {
 	ex.hashes = map[string][]hashFact{}
 	ex.beMemo = map[string]Term{}
 	ex.divMemo = map[string][2]Term{}
+	ex.nnVars = map[int]bool{}
 	ex.constMemo = map[string]Term{}
 	ex.addrHex = map[string][]Term{}
 	ex.objSeq = 0
@@ -430,6 +432,83 @@ func (ex *Exec) assume(t Term) {
 		return
 	}
 	ex.pc = append(ex.pc, t)
+	ex.learnSigns(t)
+}
+
+// isVar: t is a plain solver constant.
+func isVar(t Term) bool { return !t.Const && t.op == 0 && len(t.V) == 1 && t.S == varName(t.V[0]) }
+
+// learnSigns records, from an assumed constraint, which solver constants are known to be non-negative on this path
+// (used only to drop sign case splits: |x| = x, x < 0 = false).
+func (ex *Exec) learnSigns(c Term) {
+	switch c.op {
+	case '&':
+		ex.learnSigns(c.args[0])
+		ex.learnSigns(c.args[1])
+	case '>', 'G':
+		a, b := c.args[0], c.args[1]
+		if isVar(a) && b.Const && (b.I.Sign() >= 0 || (c.op == '>' && b.I.Cmp(big.NewInt(-1)) == 0)) {
+			ex.nnVars[a.V[0]] = true
+		}
+		if isVar(a) && !b.Const && ex.nonneg(b) {
+			ex.nnVars[a.V[0]] = true
+		}
+	case '<', 'L':
+		a, b := c.args[0], c.args[1]
+		if isVar(b) && a.Const && (a.I.Sign() >= 0 || (c.op == '<' && a.I.Cmp(big.NewInt(-1)) == 0)) {
+			ex.nnVars[b.V[0]] = true
+		}
+	case '=':
+		a, b := c.args[0], c.args[1]
+		if isVar(a) && ex.nonneg(b) {
+			ex.nnVars[a.V[0]] = true
+		}
+		if isVar(b) && ex.nonneg(a) {
+			ex.nnVars[b.V[0]] = true
+		}
+	case '!':
+		in := c.args[0]
+		if in.op == '<' && isVar(in.args[0]) && in.args[1].Const && in.args[1].I.Sign() <= 0 {
+			ex.nnVars[in.args[0].V[0]] = true
+		}
+	}
+}
+
+// nonneg: t >= 0 on every value allowed by the path condition, as far as the structure shows.
+func (ex *Exec) nonneg(t Term) bool {
+	if t.Bool {
+		return false
+	}
+	if t.Const {
+		return t.I.Sign() >= 0
+	}
+	if isVar(t) {
+		return ex.nnVars[t.V[0]]
+	}
+	switch t.op {
+	case '+':
+		return ex.nonneg(t.args[0]) && ex.nonneg(t.args[1])
+	case '*':
+		return t.args[1].I.Sign() >= 0 && ex.nonneg(t.args[0])
+	case 'i':
+		return ex.nonneg(t.args[1]) && ex.nonneg(t.args[2])
+	}
+	return false
+}
+
+// absT / ltZero: |t| and t < 0 with the sign knowledge applied.
+func (ex *Exec) absT(t Term) Term {
+	if ex.nonneg(t) {
+		return t
+	}
+	return Abs(t)
+}
+
+func (ex *Exec) ltZero(t Term) Term {
+	if ex.nonneg(t) {
+		return BoolC(false)
+	}
+	return Lt(t, IntC(0))
 }
 
 // slice returns the constraints of the path condition transitively sharing solver constants with q
@@ -506,6 +585,13 @@ func (ex *Exec) query(q Term, keep bool) string {
 	}
 	ex.inc.Send("(assert " + q.S + ")")
 	r := ex.inc.Check()
+	if qstat {
+		n := len(q.S)
+		for _, c := range sl {
+			n += len(c.S)
+		}
+		fmt.Fprintf(os.Stderr, "QSTAT slice=%d pc=%d bytes=%d res=%s\n", len(sl), len(ex.pc), n, r)
+	}
 	ex.inc.Send("(pop 1)")
 	if r == "unknown" {
 		// second opinion from the default tactic
@@ -515,6 +601,8 @@ func (ex *Exec) query(q Term, keep bool) string {
 	}
 	return r
 }
+
+var qstat = os.Getenv("VERIF_QSTAT") != ""
 
 // queryAll is like query but sends the whole path condition (used when a model is wanted).
 func (ex *Exec) queryAll(q Term) string {
